@@ -292,9 +292,16 @@ func (s *state) query(qn int) {
 	for k := s.rng.Intn(3); k > 0; k-- {
 		excl = append(excl, s.rng.Bytes(32))
 	}
+	started := time.Now()
 	txs, text, err := s.env.TxList(count, excl)
 	if err != nil {
 		s.out.Incon = "EventTxList: " + err.Error()
+		return
+	}
+	if time.Since(started) > 1500*time.Millisecond {
+		// watchdog: the pool waits at most 2 s for the nonce responder and then assumes nonce 0; on an overloaded
+		// machine such a reply says nothing about the ordering rules
+		s.out.Events["queries_discarded_slow"]++
 		return
 	}
 	s.out.Queries++
